@@ -447,6 +447,16 @@ def _cli_first(task, timeout_ms, threads=12):
         for o, r, secs in ex.map(run, jobs):
             if r == 'unsat':
                 o.result, o.time, o.backend, o.model = 'unsat', secs, 'z3-4.8.12-cli', None
+    # second pass for what the first left open (a loaded machine makes 12 s tight): fewer at a time, longer budget.
+    # Keeping these away from the in-process solver matters: a subprocess can be killed at its deadline, the
+    # in-process nonlinear engine cannot be interrupted when it stops polling its timeout.
+    left = [(o, smt) for o, smt in jobs if o.result != 'unsat']
+    if left and len(left) <= 40:
+        tmo = min(max(timeout_ms, 20000), 40000)
+        with ThreadPoolExecutor(max(2, threads // 2)) as ex:
+            for o, r, secs in ex.map(run, left):
+                if r == 'unsat':
+                    o.result, o.time, o.backend, o.model = 'unsat', secs, 'z3-4.8.12-cli', None
 
 
 def discharge(task: Task, timeout_ms=20000, keep_smt=0):
